@@ -70,6 +70,22 @@ def compare_strings_approximate(x, y, threshold=0.7, maxlen=None):
     return s.ratio() > threshold
 
 
+def _lookup_predicates(config, path):
+    """Look up the predicates for path without leaving a default entry behind.
+
+    config.predicates is typically a defaultdict, where a plain lookup records
+    the default for every list path visited. The sanity check in diff_dicts
+    would then depend on which lists were diffed before.
+    """
+    key = path or '/'
+    predicates = config.predicates
+    if key in predicates:
+        return predicates[key]
+    compares = predicates[key]
+    predicates.pop(key, None)
+    return compares
+
+
 def diff(a, b, path="", config=None):
     "Compute the diff of two json-like objects, list or dict or string."
 
@@ -112,7 +128,7 @@ def diff_sequence_multilevel(a, b, path="", config=None):
         config = DiffConfig()
 
     # Invoke multilevel snake computation algorithm
-    compares = config.predicates[path or '/']
+    compares = _lookup_predicates(config, path)
     snakes = compute_snakes_multilevel(a, b, compares)
 
     # Convert snakes to diff
@@ -126,7 +142,7 @@ def diff_lists(a, b, path="", config=None, shallow_diff=None):
         config = DiffConfig()
 
     # If multiple compares are provided to this path, delegate to multilevel algorithm
-    compares = config.predicates[path or '/']
+    compares = _lookup_predicates(config, path)
     if len(compares) > 1:
         assert shallow_diff is None
         return diff_sequence_multilevel(a, b, path=path, config=config)
